@@ -231,7 +231,10 @@ type dupProp struct {
 func (s *SpecValidator) validateDuplicatePropertyNames() *Result {
 	// definition can't declare a property that's already defined by one of its ancestors
 	res := pools.poolOfResults.BorrowResult()
-	for k, sch := range s.spec.Spec().Definitions {
+	// definitions are visited in a fixed order, so that what is reported does not depend on map iteration
+	definitions := s.spec.Spec().Definitions
+	for _, k := range sortedDefinitionNames(definitions) {
+		sch := definitions[k]
 		if len(sch.AllOf) == 0 {
 			continue
 		}
@@ -259,11 +262,22 @@ func (s *SpecValidator) validateDuplicatePropertyNames() *Result {
 			for _, v := range dups {
 				pns = append(pns, v.Definition+"."+v.Name)
 			}
+			sort.Strings(pns)
 			res.AddErrors(duplicatePropertiesMsg(k, pns))
 		}
 
 	}
 	return res
+}
+
+func sortedDefinitionNames(definitions spec.Definitions) []string {
+	names := make([]string, 0, len(definitions))
+	for name := range definitions {
+		names = append(names, name)
+	}
+	sort.Strings(names)
+
+	return names
 }
 
 func (s *SpecValidator) resolveRef(ref *spec.Ref) (*spec.Schema, error) {
@@ -567,8 +581,12 @@ func (s *SpecValidator) validateRequiredDefinitions() *Result {
 	// Each property listed in the required array must be defined in the properties of the model
 	res := pools.poolOfResults.BorrowResult()
 
+	// definitions are visited in a fixed order, so that the first error (when stopping early)
+	// does not depend on map iteration
+	definitions := s.spec.Spec().Definitions
 DEFINITIONS:
-	for d, schema := range s.spec.Spec().Definitions {
+	for _, d := range sortedDefinitionNames(definitions) {
+		schema := definitions[d]
 		if schema.Required != nil { // Safeguard
 			for _, pn := range schema.Required {
 				red := s.validateRequiredProperties(pn, d, &schema) //#nosec
